@@ -3,6 +3,7 @@ from .. import absint, busmodel as bm, headercfg, terms as T
 from ..terms import C, S, O, AV, fmt, bit_provenance
 from ..invariants import FieldInvariants
 from .common import *
+from ..terms import int_type
 
 IMPL = {'cart::MBC1CartState': 'MBC1', 'cart::MBC3CartState': 'MBC3', 'cart::NullCartState': 'ROM-only'}
 # window -> (field, mask of value bits that are stored, kind)
@@ -48,6 +49,16 @@ def run(ctx, chk):
     for ty in types:
         if ty not in IMPL:
             chk.info('controller type %s has no reference protocol in this check' % ty)
+    # the register fields this check reads by name: when a controller keeps its state differently (the MBC1 mode select as
+    # an enum instead of the bool `select_ram`, say) the clauses about that controller cannot be evaluated - no verdict
+    for ty, fam in sorted(IMPL.items()):
+        adt_ = facts['adts'].get(ty)
+        have_ = {f_['name']: f_['ty'] for f_ in (adt_ or {}).get('fields', [])}
+        for _, _, fld_, msk_ in PROTOCOL[fam]:
+            if fld_ is not None and (fld_ not in have_ or (msk_ is not None and not (int_type(have_[fld_]) or have_[fld_] == 'bool'))):
+                chk.error('%s has no integer / bool register field `%s` (anchor lost: the controller state is kept in another '
+                          'form, which this check does not read)' % (ty, fld_))
+                return chk.finish('anchors missing')
     for ty, fam in sorted(IMPL.items()):
         wr = method(ty, 'write_rom') if method(ty, 'write_rom') in prog.fns else 'cart::CartState::write_rom'
         addr = S(16, 'addr')
